@@ -291,3 +291,125 @@ def unit_wait(unit):
         return f"wait{n}"
 
     return _explore(body, unit, max_paths=6000)
+
+
+class _JsonStub:
+    """Contract stub for the json module inside pce500.emulator: ints and bools survive a
+    dumps/loads round trip unchanged (trusted stdlib fact).  dumps records the object and
+    serialises it with every symbolic leaf replaced by 0; loads returns the parsed text with
+    the recorded symbolic leaves put back at the same paths."""
+
+    def __init__(self):
+        import json
+        self._json = json
+        self.sym = {}
+
+    def _strip(self, o, path=()):
+        if core.is_sym(o):
+            self.sym[path] = o
+            return 0
+        if isinstance(o, dict):
+            return {k: self._strip(v, path + (k,)) for k, v in o.items()}
+        if isinstance(o, (list, tuple)):
+            return [self._strip(v, path + (i,)) for i, v in enumerate(o)]
+        return o
+
+    def dumps(self, obj, **kw):
+        self.sym = {}
+        self.saved = obj
+        return self._json.dumps(self._strip(obj), **kw)
+
+    def loads(self, text, **kw):
+        o = self._json.loads(text, **kw)
+        for path, v in self.sym.items():
+            cur = o
+            for p in path[:-1]:
+                cur = cur[p]
+            cur[path[-1]] = v
+        return o
+
+    def __getattr__(self, name):
+        return getattr(self._json, name)
+
+
+class _ZipStub:
+    """Contract stub for the zipfile module: an archive returns the members that were written."""
+    ZIP_DEFLATED = 8
+    store = {}
+
+    class ZipFile:
+        def __init__(self, target, mode="r", **kw):
+            self.key, self.mode = str(target), mode
+            if mode == "w":
+                _ZipStub.store[self.key] = {}
+                open(self.key, "wb").close()
+
+        def __enter__(self):
+            return self
+
+        def __exit__(self, *a):
+            return False
+
+        def writestr(self, name, data):
+            _ZipStub.store[self.key][name] = data
+
+        def read(self, name):
+            return _ZipStub.store[self.key][name]
+
+        def namelist(self):
+            return list(_ZipStub.store[self.key])
+
+
+def unit_snapshot(unit):
+    """Snapshot restore point: PCE500Emulator.save_snapshot followed by load_snapshot into a fresh
+    emulator reproduces cycle counter, both periods, both targets and the enable flag exactly (for
+    all integer values, also targets that are already due); with the advance contract the restored
+    scheduler then fires at the same cycles as the original."""
+    from symx import env
+    env.setup(extra=["pce500.scheduler", "pce500.emulator"])
+    import os
+    import tempfile
+    import pce500.emulator as PE
+    in_irq = unit.get("in_interrupt", False)
+
+    def body(eng):
+        stub = _JsonStub()
+        real_json, real_zip = PE.json, PE.zipfile
+        PE.json, PE.zipfile = stub, _ZipStub
+        tmp = tempfile.mkdtemp(prefix="symx_snap_")
+        try:
+            a = PE.PCE500Emulator(save_lcd_on_exit=False)
+            mp, sp, nm, ns, cyc = (eng.fresh_int(n) for n in ("mp", "sp", "nm", "ns", "cyc"))
+            en = eng.fresh_bool("enabled")
+            eng.assume(core._b(core.and_(mp > 0, sp > 0, cyc >= 0)))
+            a._scheduler.mti_period, a._scheduler.sti_period = mp, sp
+            a._scheduler._next_mti, a._scheduler._next_sti = nm, ns
+            a._scheduler.enabled = en
+            a._timer_enabled = en
+            a.cycle_count = cyc
+            a._in_interrupt = in_irq
+            path = os.path.join(tmp, "s.pcsnap")
+            a.save_snapshot(path)
+            ti = stub.saved["timer"]
+            P = lambda n, c, d=None: eng.prove(n, core._b(c), detail=d)
+            P("save:next_mti", ti["next_mti"] == nm)
+            P("save:next_sti", ti["next_sti"] == ns)
+            P("save:periods", core.and_(ti["mti_period"] == mp, ti["sti_period"] == sp))
+            P("save:enabled", core._b(ti["enabled"]) == core._b(en))
+            P("save:cycle_count", stub.saved["cycle_count"] == cyc)
+            b = PE.PCE500Emulator(save_lcd_on_exit=False)
+            b.load_snapshot(path)
+            s = b._scheduler
+            P("restore:cycle_count", b.cycle_count == cyc)
+            P("restore:next_mti", s.next_mti == nm, "the restored main-timer target is the saved one (also when it is already due)")
+            P("restore:next_sti", s.next_sti == ns, "the restored sub-timer target is the saved one (also when it is already due)")
+            P("restore:periods", core.and_(s.mti_period == mp, s.sti_period == sp))
+            P("restore:enabled", z3.And(core._b(s.enabled) == core._b(en), core._b(b._timer_enabled) == core._b(en)))
+            P("restore:in-interrupt", z3.BoolVal(bool(b._in_interrupt) == in_irq))
+        finally:
+            PE.json, PE.zipfile = real_json, real_zip
+            import shutil
+            shutil.rmtree(tmp, ignore_errors=True)
+        return "roundtrip"
+
+    return _explore(body, unit, wall_s=300)
